@@ -67,6 +67,39 @@ After(st, op, res) ==
       [] op = "current" -> st
       [] op = "reset"   -> Fresh
 
+(***************************************************************************)
+(* Histories that contain a failed call (a one-off failure of the source). *)
+(* "first, last and seeks are unaffected by anything done before them":    *)
+(* a call that returned Err is something done before them.  ErrRes is the  *)
+(* result "the call returned Err"; `fired` says the injected failure was   *)
+(* delivered during this very call.  What the hit call returns is C12's    *)
+(* business and is not judged here.  Afterwards the cursor is in zone      *)
+(* "err": relative moves and `current` are left open exactly as after a    *)
+(* None (the statement fixes the logical position by "the last operation   *)
+(* that returned an entry", and a failed call may have moved part of the   *)
+(* machinery), a further Err is tolerated, but an absolute move that       *)
+(* returns Ok must return the answer the content determines, and it ends   *)
+(* the zone when that answer is an entry; reset makes the cursor fresh.    *)
+(***************************************************************************)
+ErrRes == -2
+
+AllowedF(c, st, op, q, res, fired) ==
+    IF fired THEN res = ErrRes \/ res \in 0..N(c)
+    ELSE IF st.zone = "err"
+    THEN \/ res = ErrRes
+         \/ /\ res \in 0..N(c)
+            /\ op \in AbsOps => res = AbsAnswer(c, op, q)
+            /\ op = "reset" => res = 0
+    ELSE Allowed(c, st, op, q, res)
+
+AfterF(st, op, res, fired) ==
+    IF fired \/ res = ErrRes THEN [pos |-> st.pos, zone |-> "err"]
+    ELSE IF st.zone = "err"
+    THEN (IF op \in AbsOps /\ res # 0 THEN [pos |-> res, zone |-> "no"]
+          ELSE IF op = "reset" THEN Fresh
+          ELSE st)
+    ELSE After(st, op, res)
+
 \* A full scan with next (resp. prev) from a fresh or reset cursor.
 ScanAnswer(c, dir) == IF dir = "fwd" THEN Upto(1, N(c)) ELSE Downto(1, N(c))
 =============================================================================
